@@ -161,6 +161,14 @@ func (ex *Exec) callVF(caller *frame, fn *ssa.Function, args []Value) (Value, bo
 			m = msg
 		}
 		return Tuple{smt.BoolC(pk), smt.BoolC(rt), m}, true
+	case "KnownText":
+		if isOpaque(args[0]) {
+			return knownText(args[0]), true
+		}
+		if sv, ok := args[0].(*SymStr); ok {
+			return knownText(&SymStr{Opaque: true, Segs: []Value{sv}}), true
+		}
+		return args[0], true
 	case "Quiesce":
 		return smt.BVC(64, uint64(ex.quiesce())), true
 	case "Symbolic":
